@@ -103,6 +103,8 @@ class StorageTools:
         logger.debug("writeProfileData(profile_name=%s, name=%s, val=[omitted])" % (profile_name, name))
         path = os.path.join(StorageTools.getStorageForProfile(profile_name), name)
         logger.debug("Writing %s" % path)
+        if not os.path.exists(os.path.dirname(path)):
+            os.makedirs(os.path.dirname(path))
 
         with open(path, 'w' if type(val) is str else 'wb') as attrFile:
             attrFile.write(val)
